@@ -29,7 +29,13 @@ var (
 	ctVCard    = []string{"text/vcard", "text/vcard; charset=utf-8", "Text/VCard"}
 	ctOther    = []string{"text/plain", "application/json", "application/octet-stream", "application/xmlx", "text/calendarx", "image/png", "multipart/form-data; boundary=x"}
 	ctUnparse  = []string{"text/", "/xml", ";charset=utf-8", "application xml", "text/calendar/x", "application/xml/extra", "=", "\"text/xml\""}
-	ctBoundary = []string{"", "application/xml; charset", "text/calendar; =x", "text/vcard;;", "text/x-vcard", "text/directory", "application/xhtml+xml", "application/calendar+xml"}
+	ctBoundary = []string{"", "text/x-vcard", "text/directory", "application/xhtml+xml", "application/calendar+xml"}
+	// the right media type followed by a parameter section that breaks the
+	// grammar of RFC 7231 3.1.1.1 (parameter = token "=" ( token / quoted-string )):
+	// an invalid Content-Type value, whatever the type in front of it
+	ctBadParams = []string{"application/xml; charset", "text/xml; =utf-8", "application/xml;;", "application/xml; charset=\"utf-8", "text/xml; charset=", "application/xml; charset=utf-8; charset=latin1",
+		"text/calendar; charset", "text/calendar; =x", "text/calendar;;", "text/calendar; charset=\"utf-8", "text/calendar; charset=", "text/calendar; charset=utf-8 garbage",
+		"text/vcard; charset", "text/vcard; =x", "text/vcard;;", "text/vcard; charset=\"utf-8", "text/vcard; charset=", "text/vcard; charset=utf-8; charset=latin1"}
 )
 
 func destValid(target, prefix string) []string {
@@ -55,6 +61,8 @@ func ctFor(cls string, i int) HV {
 		return hv(pick(ctUnparse), "unparsable")
 	case "boundary":
 		return hv(pick(ctBoundary), "boundary")
+	case "badparams":
+		return hv(pick(ctBadParams), "badparams")
 	}
 	return HV{}
 }
@@ -505,7 +513,7 @@ func (g *generator) headers() {
 	}
 	var cts []HV
 	cts = append(cts, HV{})
-	for cls, l := range map[string][]string{"xml": ctXML, "ical": ctICal, "vcard": ctVCard, "other": ctOther, "unparsable": ctUnparse, "boundary": ctBoundary} {
+	for cls, l := range map[string][]string{"xml": ctXML, "ical": ctICal, "vcard": ctVCard, "other": ctOther, "unparsable": ctUnparse, "boundary": ctBoundary, "badparams": ctBadParams} {
 		for _, v := range l {
 			cts = append(cts, hv(v, cls))
 		}
@@ -694,7 +702,7 @@ func (g *generator) chaos(xs, ts []seedDoc, pool []Body) {
 	n := g.c.Pick(14000, 900000)
 	targets := []string{"webdav", "caldav", "carddav", "caldav", "carddav", "principal"}
 	hot := []string{"PROPFIND", "PROPPATCH", "REPORT", "PUT", "MKCOL", "COPY", "MOVE", "DELETE", "GET"}
-	ctClasses := []string{"", "xml", "xml", "xml", "ical", "vcard", "other", "unparsable", "boundary"}
+	ctClasses := []string{"", "xml", "xml", "xml", "ical", "vcard", "other", "unparsable", "boundary", "badparams"}
 	for i := 0; i < n; i++ {
 		i := i
 		g.emit(func() *Case {
